@@ -67,7 +67,7 @@ def reach_under(an, body, vcanon, v):
         t = body.term(b)
         nxt = body.succs(b)
         if t["k"] == "switch":
-            e = peel(an.op(body, t["op"]))
+            e = peel(an.opx(body, t["op"]))
             if canon(e) == vcanon:
                 tgt = t["otherwise"]
                 for val, tb in t["targets"]:
@@ -121,7 +121,7 @@ def run(ctx, env):
         base = peel(recv[1])
         ctx.ob("R12.1", path, "gate-receiver-is-self", base == ("arg", 1),
                "receiver = %s" % canon(cexpr[3][0]), site=body.line(cb))
-        key = peel(cexpr[3][1])
+        key = peel(an.expand(cexpr[3][1]))
         okv, why = version_expr_ok(an, prog, key)
         ctx.ob("R12.1", path, "gate-key-is-parsed-version", okv, why, site=body.line(cb))
         vcanon = canon(key)
@@ -148,7 +148,7 @@ def run(ctx, env):
         okua = False
         why = "no UnallowedVersion built on the false edge"
         for (b, i, s) in ua:
-            pe = peel(an.op(body, s["rv"]["ops"][0]))
+            pe = peel(an.opx(body, s["rv"]["ops"][0]))
             if canon(pe) == vcanon:
                 okua = True
                 why = "Err(UnallowedVersion(version)) at %s" % site(s["span"])
@@ -172,11 +172,12 @@ def run(ctx, env):
                 okb = False
                 why = "UnknownVersion not built for version %d" % v
                 for b, s in unk_r:
-                    pe = peel(an.op(body, s["rv"]["ops"][0]))
+                    pe = peel(an.opx(body, s["rv"]["ops"][0]))
                     # to_vec(<input remainder>)
                     srcs = find(pe, lambda n: n[0] == "arg")
-                    tv = pe[0] == "call" and pe[2] is not None and pe[2].is_("std::slice::<impl [T]>::to_vec", "alloc::slice::<impl [T]>::to_vec")
-                    inner = peel(pe[3][0]) if tv else None
+                    cp = is_copy_of_slice(pe)
+                    tv = cp is not None
+                    inner = peel(cp) if tv else None
                     okb = bool(tv and inner is not None and find(inner, lambda n: n[0] == "call" and n[2] is not None and n[2].local) and srcs)
                     why = "UnknownVersion(%s)" % canon(pe)
                 ctx.ob("R12.2", path, "unknown-carries-unparsed-bytes:version=%d" % v, okb, why, site=body.line(sw))
